@@ -715,6 +715,32 @@ pub fn run_c19(ctx: &mut Ctx) -> (String, Value, Vec<String>) {
         }
     };
     pairs.par_iter().for_each(|(a, b)| body(a, b, &[LIMIT, 9], &[0, 1, 3], &dls));
+    // the same identities for a task on its own (an empty list of interfering tasks, not a list
+    // with a never-arriving entry): an analysis may take a different code path there
+    per.par_iter().for_each(|b| {
+        for limit in [LIMIT, 9] {
+            for bb in [0u64, 1, 3] {
+                let mk = |ana: Ana, last: u64, bb: u64| UniCase { ana, tasks: vec![tsa(&b.0, b.1, 0, last, 1)], tua: 0, blocking: bb, limit };
+                if bb == 0 {
+                    eq_pair(&bad, "fp-lp(last=1,no-blocking)==fp-p#results-differ", &mk(Ana::FpLp, 1, 0), &mk(Ana::FpP, 1, 0), &n, &nt);
+                }
+                eq_pair(&bad, "fp-lp(last=wcet)==fp-np#results-differ", &mk(Ana::FpLp, b.1, bb), &mk(Ana::FpNp, 1, bb), &n, &nt);
+                eq_pair(&bad, "fp-fl==fp-lp(last=1)#results-differ", &mk(Ana::FpFl, 1, bb), &mk(Ana::FpLp, 1, bb), &n, &nt);
+            }
+            for d1 in &dls {
+                let mk = |ana: Ana, last: u64| UniCase { ana, tasks: vec![tsa(&b.0, b.1, *d1, last, 1)], tua: 0, blocking: 0, limit };
+                eq_pair(&bad, "edf-lp(segments=1)==edf-p#results-differ", &mk(Ana::EdfLp, 1), &mk(Ana::EdfP, 1), &n, &nt);
+                eq_pair(&bad, "edf-fl(segments=1)==edf-p#results-differ", &mk(Ana::EdfFl, 1), &mk(Ana::EdfP, 1), &n, &nt);
+                eq_pair(&bad, "edf-lp(segments=wcet)==edf-np#results-differ", &mk(Ana::EdfLp, b.1), &mk(Ana::EdfNp, 1), &n, &nt);
+                // "with equal relative deadlines the largest NP-EDF bound equals the FIFO bound",
+                // for a task set of one
+                let one = |ana: Ana| UniCase { ana, tasks: vec![tsa(&b.0, b.1, *d1, 1, b.1)], tua: 0, blocking: 0, limit };
+                if b.0.eta(LIMIT) > 0 {
+                    eq_pair(&bad, "max-edf-np(equal-deadlines)==fifo#results-differ", &one(Ana::EdfNp), &one(Ana::Fifo), &n, &nt);
+                }
+            }
+        }
+    });
     // systems that are not tiny: a busy window of more than 10^5 ticks (one very long job), and
     // the family hp = (C 2g, T 3g), tua = (C g-1, T 3g-2) whose busy window holds more than
     // 65 536 jobs of the analysed task, each a tick worse than the one before
